@@ -258,6 +258,14 @@ def battery(repo: Repo, ctx, rule: str, prefixes: Iterable[str],
                      f'before it except for {slip}' for f, s2, slip in
                      hits[:3]) + f' -- {consequence}',
            hits[0][0].loc if hits else '', sample=f'{n} mirrored pairs')
+    n, hits = dropped_forwarding(repo, prefixes)
+    ctx.ob(rule, 'slips:option-forwarding', not hits,
+           '; '.join(f'{f.qualname} receives `{P}` but calls {cal.name} '
+                     f'(which takes `{P}`, defaulted) without passing it '
+                     f'on; every other such call in the repository does'
+                     for f, c, cal, P in hits[:3]) + f' -- {consequence}',
+           hits[0][0].loc if hits else '', sample=f'{n} pass-through sites',
+           nontrivial=bool(n))
     n, hits = loop_slips(repo, prefixes)
     ctx.ob(rule, 'slips:loops', not hits,
            '; '.join(f'{f.qualname}:{l.lineno - f.node.lineno}: {why}'
@@ -322,3 +330,55 @@ def for_property(repo: Repo, ctx, prop: str) -> None:
     if prop in SCOPE:
         pf, why = SCOPE[prop]
         battery(repo, ctx, f'{prop}.L', pf, why)
+
+
+# ---------------------------------------------------------------------------
+# keyword forwarding
+
+# Parameters that every one of their (>= 4) caller/callee pairs in the tree
+# the rules were written against passes on when the callee has a defaulted
+# parameter of the same name.  Frozen here (statistics only discovered the
+# candidates; each is a pass-through option by reading).
+ALWAYS_FORWARDED = {
+    'aspect', 'catenate', 'condition', 'conditions', 'derived_name_base',
+    'direction', 'dml_source', 'dml_stmts', 'force', 'localnames',
+    'modaliases', 'module', 'neg_conditions', 'newlines', 'object_desc',
+    'opaque', 'options', 'parent_node', 'parent_op', 'sourcectx', 'testmode',
+    'type_override',
+}
+
+
+def dropped_forwarding(repo: Repo, prefixes: Iterable[str]):
+    fr = V.FieldReads(repo)
+    n = 0
+    hits = []
+    for m in repo.modules.values():
+        if not m.name.startswith(tuple(prefixes)):
+            continue
+        for f in repo._funcs_of(m):
+            fps = set(f.params()) & ALWAYS_FORWARDED
+            if not fps:
+                continue
+            for c in ast.walk(f.node):
+                if not isinstance(c, ast.Call) or any(
+                        k.arg is None for k in c.keywords):
+                    continue
+                cal = fr.resolve_callee(f, c)
+                if cal is None or cal is f:
+                    continue
+                a = cal.node.args
+                dflt = {x.arg for x, d in zip(a.kwonlyargs, a.kw_defaults)
+                        if d is not None}
+                pos = a.posonlyargs + a.args
+                if a.defaults:
+                    dflt |= {x.arg for x in pos[len(pos) - len(a.defaults):]}
+                cps = cal.params()
+                off = 1 if (cal.cls is not None and cps
+                            and cps[0] in ('self', 'cls')) else 0
+                for P in fps & dflt:
+                    n += 1
+                    idx = cps.index(P) - off
+                    if not (any(k.arg == P for k in c.keywords)
+                            or len(c.args) > idx):
+                        hits.append((f, c, cal, P))
+    return n, hits
